@@ -214,6 +214,55 @@ func runC04(c *Ctx) {
 					}
 				}
 			}
+			// --- R3c: what is subtracted from the cached size was measured with the sizer the cache is read with
+			for _, ci := range calls(fn, func(ci ssa.CallInstruction) bool {
+				cf := staticCalleeFn(ci)
+				return cf != nil && recvNamedOfFn(cf) == r.T && len(fieldStores(cf, r.T, "cachedSize")) > 0 && len(ci.Common().Args) == 2
+			}) {
+				arg := ci.Common().Args[1]
+				bo, ok := arg.(*ssa.BinOp)
+				if !ok || bo.Op != token.SUB {
+					continue
+				}
+				var readSizer ssa.Value
+				if rc, ok := bo.X.(*ssa.Call); ok && len(rc.Call.Args) == 2 {
+					readSizer = strip(rc.Call.Args[1])
+				}
+				if readSizer == nil {
+					continue
+				}
+				c.Rule("R3", "", "", 0)
+				okUnit := true
+				var walk func(v ssa.Value, seen map[ssa.Value]bool)
+				walk = func(v ssa.Value, seen map[ssa.Value]bool) {
+					if seen[v] {
+						return
+					}
+					seen[v] = true
+					switch x := v.(type) {
+					case *ssa.Phi:
+						for _, e := range x.Edges {
+							walk(e, seen)
+						}
+					case *ssa.Extract:
+						if ec, ok := x.Tuple.(*ssa.Call); ok {
+							if cf := staticCalleeFn(ec); cf != nil && strings.HasPrefix(cf.Name(), "extract") {
+								same := false
+								for _, a := range ec.Call.Args {
+									if strip(a) == readSizer {
+										same = true
+									}
+								}
+								if !same {
+									okUnit = false
+								}
+							}
+						}
+					}
+				}
+				walk(bo.Y, map[ssa.Value]bool{})
+				c.Check(okUnit, tag+"amount subtracted from the cached size in "+fnName(fn)+" is in the cache's unit", p.Pos(ci.Pos()), "measured by an extraction made with the threaded sizer", "the amount subtracted from the cached size was returned by an extraction made with a different sizer (e.g. the item-count fallback) than the one the cache is read with: units are mixed, the byte-sized cache shrinks by 1 per round and the split loop never ends")
+			}
 			// --- R4: merge
 			if strings.HasPrefix(fn.Name(), "merge") {
 				c.Rule("R4", "", "", 0)
@@ -242,6 +291,8 @@ func runC04(c *Ctx) {
 					}
 				}
 				c.Check(ok, tag+"merge moves the whole top-level slice: "+fnName(fn), p.Pos(fn.Pos()), "src.payload.Resource*().MoveAndAppendTo(dst.payload.Resource*())", "merge does not move the source's whole top-level resource slice into the destination's")
+				uncond := len(mv) == 1 && len(guardsOf(mv[0].Block())) == 0
+				c.Check(uncond, tag+"merge appends the source behind the destination, always: "+fnName(fn), p.Pos(fn.Pos()), "one unconditional MoveAndAppendTo", fmt.Sprintf("%d MoveAndAppendTo calls / conditional: the order of the merged request's resources depends on the inputs, but the batcher relies on the pending batch's data being in front (its callbacks ride on the first split result only) – a parked request's callback fires while part of its data is still pending and reports the wrong outcome", len(mv)))
 			}
 		}
 	}
